@@ -92,6 +92,29 @@ func loadSpecs() {
 	sort.SliceStable(specs, func(i, j int) bool { return specs[i].Prop < specs[j].Prop })
 }
 
+// enabledSpecs are the specs of the engines listed in /verif/sim/ENABLED (one
+// engine directory name per line): the ones that are claimed in MANIFEST.json
+// and warmed by setup. Any engine directory can still be run by property id.
+func enabledSpecs() []*spec {
+	b, err := os.ReadFile(filepath.Join(verif, "sim", "ENABLED"))
+	if err != nil {
+		return specs
+	}
+	on := map[string]bool{}
+	for _, l := range splitLines(string(b)) {
+		if !strings.HasPrefix(l, "#") {
+			on[l] = true
+		}
+	}
+	var out []*spec
+	for _, s := range specs {
+		if on[s.Engine] {
+			out = append(out, s)
+		}
+	}
+	return out
+}
+
 func runOut(name string, args ...string) (string, error) {
 	out, err := exec.Command(name, args...).Output()
 	return string(out), err
@@ -580,7 +603,16 @@ func main() {
 	if len(os.Args) >= 2 && os.Args[1] == "--warm" {
 		// build every engine binary once so later checks hit the build cache
 		seen := map[string]bool{}
-		for _, s := range specs {
+		for _, s := range enabledSpecs() {
+			if s.CustomName == "c06" && !seen[s.Engine] {
+				seen[s.Engine] = true
+				scratch := mkScratch()
+				t0 := time.Now()
+				c06BuildDriver(scratch)
+				fmt.Printf("warmed %s (workload driver) in %.1fs\n", s.Engine, time.Since(t0).Seconds())
+				os.RemoveAll(scratch)
+				continue
+			}
 			if s.Custom != nil || seen[s.Engine+s.Pkg] {
 				continue
 			}
